@@ -693,7 +693,7 @@ func (p *Program) SingleFile() string {
 	return q.Print()["main.mro"]
 }
 
-func SortedKeys(m map[string]string) []string {
+func SortedKeys[V any](m map[string]V) []string {
 	ks := make([]string, 0, len(m))
 	for k := range m {
 		ks = append(ks, k)
